@@ -58,19 +58,19 @@ section
 variable {rec rec' : Rec} (h : ∀ s st a b, Res.le (rec s st a b) (rec' s st a b))
 include h
 
-theorem cycleLeft_mono (asm : Asm) (st : List Nat) (d b : Nat) :
-    Res.le (cycleLeft rec asm st d b) (cycleLeft rec' asm st d b) := by
+theorem cycleLeft_mono (vr : Variant) (asm : Asm) (st : Stk) (d b : Nat) :
+    Res.le (cycleLeft vr rec asm st d b) (cycleLeft vr rec' asm st d b) := by
   unfold cycleLeft; split
   · exact Res.le_refl _
   · exact h _ _ _ _
 
-theorem cycleRight_mono (asm : Asm) (st : List Nat) (a d : Nat) :
+theorem cycleRight_mono (asm : Asm) (st : Stk) (a d : Nat) :
     Res.le (cycleRight rec asm st a d) (cycleRight rec' asm st a d) := by
   unfold cycleRight; split
   · exact Res.le_refl _
   · exact h _ _ _ _
 
-theorem unionLeft_mono (vr : Variant) (mode : Mode) (asm : Asm) (st : List Nat) (a b : Nat)
+theorem unionLeft_mono (vr : Variant) (mode : Mode) (asm : Asm) (st : Stk) (a b : Nat)
     (vs : List Nat) :
     Res.le (unionLeft vr mode rec asm st a b vs) (unionLeft vr mode rec' asm st a b vs) := by
   unfold unionLeft
@@ -79,13 +79,13 @@ theorem unionLeft_mono (vr : Variant) (mode : Mode) (asm : Asm) (st : List Nat) 
   · exact allS_mono (fun s v => h _ _ _ _) _ _
   · exact anyS_mono (fun s v => h _ _ _ _) _ _
 
-theorem unionRight_mono (vr : Variant) (asm : Asm) (st : List Nat) (a b : Nat) (vs : List Nat) :
+theorem unionRight_mono (vr : Variant) (asm : Asm) (st : Stk) (a b : Nat) (vs : List Nat) :
     Res.le (unionRight vr rec asm st a b vs) (unionRight vr rec' asm st a b vs) := by
   unfold unionRight
   apply restoreOnFail_mono
   exact anyS_mono (fun s v => h _ _ _ _) _ _
 
-theorem tupleFields_mono (st : List Nat) (z : List ((Option Name × Nat) × (Option Name × Nat)))
+theorem tupleFields_mono (st : Stk) (z : List ((Option Name × Nat) × (Option Name × Nat)))
     (asm : Asm) : Res.le (tupleFields rec st z asm) (tupleFields rec' st z asm) := by
   unfold tupleFields
   apply allS_mono
@@ -94,13 +94,13 @@ theorem tupleFields_mono (st : List Nat) (z : List ((Option Name × Nat) × (Opt
   · exact h _ _ _ _
   · exact Res.le_refl _
 
-theorem tupleTuple_mono (T : Table) (asm : Asm) (st : List Nat) (i1 i2 : Nat) :
-    Res.le (tupleTuple T rec asm st i1 i2) (tupleTuple T rec' asm st i1 i2) := by
+theorem tupleTuple_mono (vr : Variant) (T : Table) (mode : Mode) (asm : Asm) (st : Stk) (i1 i2 : Nat) :
+    Res.le (tupleTuple vr T mode rec asm st i1 i2) (tupleTuple vr T mode rec' asm st i1 i2) := by
   unfold tupleTuple
   repeat' split
   all_goals first | exact Res.le_refl _ | exact tupleFields_mono h _ _ _
 
-theorem tuplePartFields_mono (st : List Nat) (cfs : List (Option Name × Nat))
+theorem tuplePartFields_mono (st : Stk) (cfs : List (Option Name × Nat))
     (pfs : List (Name × Nat)) (asm : Asm) :
     Res.le (tuplePartFields rec st cfs pfs asm) (tuplePartFields rec' st cfs pfs asm) := by
   unfold tuplePartFields
@@ -112,14 +112,14 @@ theorem tuplePartFields_mono (st : List Nat) (cfs : List (Option Name × Nat))
   · exact h _ _ _ _
   · exact Res.le_refl _
 
-theorem tuplePart_mono (T : Table) (asm : Asm) (st : List Nat) (c : Nat) (pn : Option Name)
+theorem tuplePart_mono (T : Table) (asm : Asm) (st : Stk) (c : Nat) (pn : Option Name)
     (pfs : List (Name × Nat)) :
     Res.le (tuplePart T rec asm st c pn pfs) (tuplePart T rec' asm st c pn pfs) := by
   unfold tuplePart
   repeat' split
   all_goals first | exact Res.le_refl _ | exact tuplePartFields_mono h _ _ _ _
 
-theorem partPartFields_mono (vr : Variant) (mode : Mode) (st : List Nat) (fs1 fs2 : List (Name × Nat))
+theorem partPartFields_mono (vr : Variant) (mode : Mode) (st : Stk) (fs1 fs2 : List (Name × Nat))
     (asm : Asm) :
     Res.le (partPartFields vr mode rec st fs1 fs2 asm) (partPartFields vr mode rec' st fs1 fs2 asm) := by
   unfold partPartFields
@@ -137,7 +137,7 @@ theorem partPartFields_mono (vr : Variant) (mode : Mode) (st : List Nat) (fs1 fs
     · exact h _ _ _ _
     · exact Res.le_refl _
 
-theorem partPart_mono (vr : Variant) (mode : Mode) (asm : Asm) (st : List Nat)
+theorem partPart_mono (vr : Variant) (mode : Mode) (asm : Asm) (st : Stk)
     (n1 : Option Name) (fs1 : List (Name × Nat)) (n2 : Option Name) (fs2 : List (Name × Nat)) :
     Res.le (partPart vr mode rec asm st n1 fs1 n2 fs2) (partPart vr mode rec' asm st n1 fs1 n2 fs2) := by
   unfold partPart
@@ -145,7 +145,7 @@ theorem partPart_mono (vr : Variant) (mode : Mode) (asm : Asm) (st : List Nat)
   · exact Res.le_refl _
   · exact partPartFields_mono h _ _ _ _ _ _
 
-theorem partTupleFields_mono (st : List Nat) (cfs : List (Option Name × Nat))
+theorem partTupleFields_mono (st : Stk) (cfs : List (Option Name × Nat))
     (pfs : List (Name × Nat)) (asm : Asm) :
     Res.le (partTupleFields rec st cfs pfs asm) (partTupleFields rec' st cfs pfs asm) := by
   unfold partTupleFields
@@ -157,21 +157,21 @@ theorem partTupleFields_mono (st : List Nat) (cfs : List (Option Name × Nat))
   · exact h _ _ _ _
   · exact Res.le_refl _
 
-theorem partTuple_mono (vr : Variant) (T : Table) (mode : Mode) (asm : Asm) (st : List Nat)
+theorem partTuple_mono (vr : Variant) (T : Table) (mode : Mode) (asm : Asm) (st : Stk)
     (pn : Option Name) (pfs : List (Name × Nat)) (c : Nat) :
     Res.le (partTuple vr T mode rec asm st pn pfs c) (partTuple vr T mode rec' asm st pn pfs c) := by
   unfold partTuple
   repeat' split
   all_goals first | exact Res.le_refl _ | exact partTupleFields_mono h _ _ _ _
 
-theorem optRel_mono (asm : Asm) (st : List Nat) (x y : Option Nat) :
+theorem optRel_mono (asm : Asm) (st : Stk) (x y : Option Nat) :
     Res.le (optRel rec asm st x y) (optRel rec' asm st x y) := by
   unfold optRel
   split
   · exact h _ _ _ _
   · exact Res.le_refl _
 
-theorem processProcess_mono (asm : Asm) (st : List Nat) (s1 r1 s2 r2 : Option Nat) :
+theorem processProcess_mono (asm : Asm) (st : Stk) (s1 r1 s2 r2 : Option Nat) :
     Res.le (processProcess rec asm st s1 r1 s2 r2) (processProcess rec' asm st s1 r1 s2 r2) := by
   intro x hx
   unfold processProcess at hx ⊢
@@ -190,12 +190,14 @@ theorem processProcess_mono (asm : Asm) (st : List Nat) (s1 r1 s2 r2 : Option Na
       rw [h2] at hx
       exact hx
 
-theorem callableCallable_mono (asm : Asm) (st : List Nat) (b p1 r1 c1 p2 r2 c2 : Nat) :
-    Res.le (callableCallable rec asm st b p1 r1 c1 p2 r2 c2)
-      (callableCallable rec' asm st b p1 r1 c1 p2 r2 c2) := by
+theorem callableCallable_mono (vr : Variant) (asm : Asm) (st : Stk) (a b p1 r1 c1 p2 r2 c2 : Nat) :
+    Res.le (callableCallable vr rec asm st a b p1 r1 c1 p2 r2 c2)
+      (callableCallable vr rec' asm st a b p1 r1 c1 p2 r2 c2) := by
   intro x hx
   unfold callableCallable at hx ⊢
-  cases h1 : rec asm (pushStack st b) p2 p1 with
+  simp only at hx ⊢
+  generalize (if vr.leftCycleOnRightStack then (st.pushR b).pushL a else ((st.pushR b).pushL a).swap) = stc at hx ⊢
+  cases h1 : rec asm stc p2 p1 with
   | none => simp [h1] at hx
   | some q1 =>
     obtain ⟨ok1, a1⟩ := q1
@@ -205,7 +207,7 @@ theorem callableCallable_mono (asm : Asm) (st : List Nat) (b p1 r1 c1 p2 r2 c2 :
     | false => exact hx
     | true =>
       simp only at hx ⊢
-      cases h2 : rec a1 (pushStack st b) r1 r2 with
+      cases h2 : rec a1 ((st.pushR b).pushL a) r1 r2 with
       | none => simp [h2] at hx
       | some q2 =>
         obtain ⟨ok2, a2⟩ := q2
@@ -216,32 +218,32 @@ theorem callableCallable_mono (asm : Asm) (st : List Nat) (b p1 r1 c1 p2 r2 c2 :
         | true => simp only at hx ⊢; exact h _ _ _ _ _ hx
 
 theorem relStep_mono (vr : Variant) (T : Table) (mode : Mode)
-    (asm : Asm) (st : List Nat) (a b : Nat) (ta tb : Ty) :
+    (asm : Asm) (st : Stk) (a b : Nat) (ta tb : Ty) :
     Res.le (relStep vr T mode rec asm st a b ta tb) (relStep vr T mode rec' asm st a b ta tb) := by
   unfold relStep
   split
   all_goals first
     | exact Res.le_refl _
-    | exact cycleLeft_mono h _ _ _ _
+    | exact cycleLeft_mono h _ _ _ _ _
     | exact cycleRight_mono h _ _ _ _
     | exact unionLeft_mono h _ _ _ _ _ _ _
     | exact unionRight_mono h _ _ _ _ _ _
-    | exact tupleTuple_mono h _ _ _ _ _
+    | exact tupleTuple_mono h _ _ _ _ _ _ _
     | exact tuplePart_mono h _ _ _ _ _ _
     | exact partPart_mono h _ _ _ _ _ _ _ _
     | exact partTuple_mono h _ _ _ _ _ _ _ _
     | exact processProcess_mono h _ _ _ _ _ _
-    | exact callableCallable_mono h _ _ _ _ _ _ _ _ _
+    | exact callableCallable_mono h _ _ _ _ _ _ _ _ _ _ _
     | (split
-       · exact callableCallable_mono h _ _ _ _ _ _ _ _ _
-       · exact restoreOnFail_mono _ _ (callableCallable_mono h _ _ _ _ _ _ _ _ _))
-    | (split; exact Res.le_refl _; exact cycleLeft_mono h _ _ _ _)
+       · exact callableCallable_mono h _ _ _ _ _ _ _ _ _ _ _
+       · exact restoreOnFail_mono _ _ (callableCallable_mono h _ _ _ _ _ _ _ _ _ _ _))
+    | (split; exact Res.le_refl _; exact cycleLeft_mono h _ _ _ _ _)
 
 end
 
 /-- one more unit of fuel never changes an answer. -/
 theorem checkRelV_succ (vr : Variant) (T : Table) (mode : Mode) :
-    ∀ (n : Nat) (asm : Asm) (st : List Nat) (a b : Nat),
+    ∀ (n : Nat) (asm : Asm) (st : Stk) (a b : Nat),
       Res.le (checkRelV vr T mode n asm st a b) (checkRelV vr T mode (n + 1) asm st a b) := by
   intro n
   induction n with
@@ -261,28 +263,28 @@ theorem checkRelV_succ (vr : Variant) (T : Table) (mode : Mode) :
         · exact hx
 
 theorem checkRelV_mono (vr : Variant) (T : Table) (mode : Mode) {n m : Nat} (hnm : n ≤ m)
-    (asm : Asm) (st : List Nat) (a b : Nat) :
+    (asm : Asm) (st : Stk) (a b : Nat) :
     Res.le (checkRelV vr T mode n asm st a b) (checkRelV vr T mode m asm st a b) := by
   induction hnm with
   | refl => exact Res.le_refl _
   | step _ ih => exact fun x hx => checkRelV_succ vr T mode _ asm st a b x (ih x hx)
 
 theorem checkRel_mono (T : Table) (mode : Mode) {n m : Nat} (hnm : n ≤ m)
-    (asm : Asm) (st : List Nat) (a b : Nat) {r : Bool × Asm}
+    (asm : Asm) (st : Stk) (a b : Nat) {r : Bool × Asm}
     (h : checkRel T mode n asm st a b = some r) : checkRel T mode m asm st a b = some r :=
   checkRelV_mono _ T mode hnm asm st a b r h
 
 theorem isCompatible_mono (T : Table) {n m : Nat} (hnm : n ≤ m) (a b : Nat) {r : Bool}
     (h : isCompatible T n a b = some r) : isCompatible T m a b = some r := by
   unfold isCompatible at h ⊢
-  cases hc : checkRel T .all n [] [] a b with
+  cases hc : checkRel T .all n [] {} a b with
   | none => simp [hc] at h
   | some p => rw [checkRel_mono T .all hnm _ _ _ _ hc]; rw [hc] at h; exact h
 
 theorem typesOverlap_mono (T : Table) {n m : Nat} (hnm : n ≤ m) (a b : Nat) {r : Bool}
     (h : typesOverlap T n a b = some r) : typesOverlap T m a b = some r := by
   unfold typesOverlap at h ⊢
-  cases hc : checkRel T .any n [] [] a b with
+  cases hc : checkRel T .any n [] {} a b with
   | none => simp [hc] at h
   | some p => rw [checkRel_mono T .any hnm _ _ _ _ hc]; rw [hc] at h; exact h
 
